@@ -179,7 +179,8 @@ def run(tier, v):
             except Exception as e:       # judged after join
                 mcs[name] = e
     if thorough:
-        ths = [threading.Thread(target=run_mcs, args=(mc_jobs[0::2],)), threading.Thread(target=run_mcs, args=(mc_jobs[1::2],))]
+        # two chains of about equal length: (queue, 2r) and (time, eq, names)
+        ths = [threading.Thread(target=run_mcs, args=(mc_jobs[0:4:2],)), threading.Thread(target=run_mcs, args=(mc_jobs[1:4:2] + mc_jobs[4:],))]
     else:           # quick: one after the other (both end before the replay does)
         ths = [threading.Thread(target=run_mcs, args=(mc_jobs,))]
     for t in ths:
